@@ -22,7 +22,7 @@ EXPLANATION = (
     'propagated: a raising feeder signals on_error and stops, the five routed entry points return the error value of '
     'their role, a failed response future becomes an ERROR frame (shared with C10.a). Not decided: that requests on '
     'other streams are afterwards served correctly (a run-time fact).')
-EXPLANATION_ADDED = ('(g) an unsolicited LEASE cannot stall requests (shared C14.f); send_error puts exactly one ERROR frame with the stream id given; a request on a stream id in use is rejected before anything is registered (shared C13.d); the data of the ERROR frame built for whatever a handler raised is text for every exception object, and every construction of a protocol error passes text (C12.g), so serialising the reply cannot kill the sender task.')
+EXPLANATION_ADDED = ('(g) an unsolicited LEASE cannot stall requests (shared C14.f); send_error puts exactly one ERROR frame with the stream id given; a request on a stream id in use is rejected before anything is registered (shared C13.d); the data of the ERROR frame built for whatever a handler raised is text for every exception object, and every construction of a protocol error passes text (C12.g), so serialising the reply cannot kill the sender task; (h) every websocket-style transport hands the frame parser bytes only - the hand-off is guarded by a test of the message type (BINARY / isinstance bytes) or the value comes from an API that returns bytes only - so a TEXT message from the peer is ignored instead of raising in the parser and ending the connection.')
 EXPLANATION = EXPLANATION.replace(' Not decided', ' ' + EXPLANATION_ADDED + ' Not decided', 1) \
     if ' Not decided' in EXPLANATION else EXPLANATION + ' ' + EXPLANATION_ADDED
 ASSUMPTIONS = COMMON_ASSUMPTIONS
@@ -468,6 +468,13 @@ def rule_j(ctx):
             detail or 'on all %d paths the data is the text of the exception (or a protocol error\'s text)' % n_store)
 
 
+def rule_k(ctx):
+    """A websocket peer's TEXT message cannot take the connection down: every message transport hands the frame
+    parser bytes only (rules/msgtransports.py)."""
+    from .msgtransports import rule_only_bytes_reach_the_parser
+    rule_only_bytes_reach_the_parser(ctx, 'C12.h')
+
+
 def rule_g(ctx):
     """An unsolicited LEASE frame cannot stall the victim's requests (shared C14.f)."""
     from .c14 import rule_gate_scope
@@ -475,4 +482,4 @@ def rule_g(ctx):
 
 
 RULES = [('C12.a', rule_a), ('C12.b', rule_b), ('C12.c', rule_c), ('C12.d', rule_d), ('C12.e', rule_e),
-         ('C12.f', rule_f), ('C14.f', rule_g), ('C12.b', rule_h), ('C13.d', rule_i), ('C12.g', rule_j)]
+         ('C12.f', rule_f), ('C14.f', rule_g), ('C12.b', rule_h), ('C13.d', rule_i), ('C12.g', rule_j), ('C12.h', rule_k)]
